@@ -24,7 +24,6 @@ STORE_TRUSTED = ["model of nodePoints/edgePoints/updateHash/up and the two write
 STORE_ASSUME = ['SQLite, database/sql and NATS request/reply behave as documented (a write is visible to reads issued after its reply)', 'node ids are NATS subject tokens without quotes; strings are valid UTF-8 without NUL; times are non-zero and within int64 ns; edge tombstone points carry 0, 1 or 2']
 
 AREAS["C01"] = {
-    "ready": False,
     "area": "c01", "id": 1, "coq": ["Base", "Store", "Properties/C01.v"], "rule": STORE_RULE, "trusted": STORE_TRUSTED, "assumptions": STORE_ASSUME,
     "level_text": "proof: C01 theorems (newest point per identity wins for every history, one row per identity, order/batching/duplication independence) "
                   "about the executable model of nodePoints/edgePoints; the model is replayed against a real instance on generated histories and must reproduce every dump; "
@@ -32,21 +31,18 @@ AREAS["C01"] = {
     "level_note": "trusted: Coq kernel, extraction, OCaml driver, Go harness; modelled not verified: SQLite, NATS, protobuf transport; theorems assume distinct times per identity and no NaN (refused, C05)",
 }
 AREAS["C03"] = {
-    "ready": False,
     "area": "c03", "id": 3, "coq": ["Base", "Store", "Properties/C03.v"], "rule": STORE_RULE, "trusted": STORE_TRUSTED, "assumptions": STORE_ASSUME,
     "level_text": "proof: the incremental XOR-Merkle update of the model preserves the from-scratch hash equation on every edge for every history and every acyclic graph shape "
                   "(path-parity argument, fuel adequacy); the model's hashes must equal the instance's after every request, and every dumped hash is recomputed independently from the dump",
     "level_note": "trusted as C01; CRC-32 collisions are outside the claim (delta != 0 is a hypothesis of the propagation clause); a change below an even number of paths cancels by the XOR definition itself (known finding K2)",
 }
 AREAS["C05"] = {
-    "ready": False,
     "area": "c05", "id": 5, "coq": ["Base", "Store", "Properties/C05.v"], "rule": STORE_RULE, "trusted": STORE_TRUSTED, "assumptions": STORE_ASSUME,
     "level_text": "proof: in the model every request of a refused class is answered with an error, an error reply leaves state and rebroadcast stream untouched, reachable graphs stay acyclic "
                   "so the upward recursions terminate; replies, dumps and up.> traffic of a real instance are compared with the model after every request and the refusal/no-trace specification is evaluated on them",
     "level_note": "trusted as C01; a request that kills or wedges the instance is observed through worker processes with timeouts",
 }
 AREAS["C06"] = {
-    "ready": False,
     "area": "c06", "id": 6, "coq": ["Base", "Store", "Properties/C06.v"], "rule": STORE_RULE, "trusted": STORE_TRUSTED, "assumptions": STORE_ASSUME,
     "level_text": "proof: the set of subjects the recursive publishers of the model publish on is exactly the reflexive-transitive upward closure (live edges for node points, all edges for edge points) "
                   "for every acyclic graph; everything a real instance publishes on up.> is compared with the model and with the closure computed from the dump",
